@@ -368,6 +368,41 @@ TVCCall ==
            \cup Fail("C:NoWriteOutsideArrays:" \o Ev.cname, Ev.canary),
            Ev.o, m, memo, KeepT(Ev.o))
 
+\* ---- C13: a file reader fed with arbitrary bytes.  Whatever it returns, the object must afterwards be in SOME
+\* self-consistent state (taken from the projection: the content of the file is not specified), from which the history
+\* continues under the ordinary actions (solve, clear, load, solve with a known status).  An unmutated seed file whose LP is
+\* known must be read as exactly that LP.
+TVReadFile ==
+   /\ Ev.a = "readFile" /\ Ev.o \in Live
+   /\ LET s == objs[Ev.o]  st == Ev.st
+          shape == StShapeOK(st) /\ (st.hasQ => StShapeOK(st.q))
+          rl == [LPOfSt(st) EXCEPT !.offset = st.offset]
+          ql == IF st.hasQ /\ shape THEN LPOfSt(st.q) ELSE s.qlp
+          s1 == [s EXCEPT !.rlp = rl, !.qlp = ql, !.offsetPar = st.offsetParam, !.status = st.status, !.hasSol = FALSE,
+                          !.hasBasis = FALSE, !.brow = <<>>, !.bcol = <<>>]
+          ex == [rows |-> Ev.expect.rows, lhs |-> Ev.expect.lhs, rhs |-> Ev.expect.rhs, lo |-> Ev.expect.lo, up |-> Ev.expect.up,
+                 obj |-> Ev.expect.obj, sense |-> Ev.expect.sense, offset |-> "0"]
+      IN Step(IF ~shape THEN {"Read:StShape"} ELSE
+              { "Read:" \o n : n \in ProjFails(s1, st) }                                  \* incl. row file = column file, rational LP projected consistently
+              \cup Fail("Read:NoStaleSolutionOrBasis", ~st.hasSol /\ ~st.hasBasis)
+              \cup Fail("Read:NoNewVerdict", st.status <= 0)
+              \cup Fail("Read:NameSetsMatchDimensions", Ev.ret => Ev.nRowNames = st.nr /\ Ev.nColNames = st.nc)
+              \cup (IF s.sync = 1 /\ st.hasQ THEN { "Read:" \o n : n \in InSyncFails(rl, ql) } ELSE {})
+              \cup (IF Ev.hasExpect THEN Fail("Read:SeedFileAccepted", Ev.ret)
+                                        \cup (IF Ev.ret THEN { "Read:Expected:" \o n : n \in (IF Ev.rational /\ st.hasQ THEN LPEq(ex, st.q) ELSE LPEq(ex, st)) } ELSE {})
+                    ELSE {})
+              \cup OthersFails(Ev.o),
+              Ev.o, s1, memo, Forget(Ev.o))
+\* a (possibly mutated) basis file: afterwards the object either has no basis or a structurally valid one for its LP
+TVReadBasisFuzz ==
+   /\ Ev.a = "readBasisFuzz" /\ Ev.o \in Live
+   /\ LET s == objs[Ev.o]  st == Ev.st
+          s1 == [TakeBasis(s, st) EXCEPT !.status = st.status, !.hasSol = st.hasSol]
+      IN Step(ProjFails(s1, st) \cup BasisInvFails(s1)
+              \cup Fail("ReadBasis:UnmutatedAccepted", Ev.mutation = "none" => Ev.ret)
+              \cup Fail("ReadBasis:NoNewVerdict", st.status = s.status \/ st.status <= 0)
+              \cup OthersFails(Ev.o), Ev.o, s1, memo, KeepT(Ev.o))
+
 \* ---- C03: exact solves are judged against the RATIONAL LP with zero tolerances
 TVWitnessQ ==
    /\ Ev.a = "witnessQ" /\ Ev.o \in Live
@@ -514,7 +549,7 @@ TVScalerBare ==
 Init == objs = <<>> /\ memo = NoMemo /\ truth = <<>> /\ l = 1
 Next == /\ l <= Len(Tr)
         /\ \/ TVReset \/ TVCreate \/ TVMod \/ TVSetInt \/ TVSetBool \/ TVSetReal \/ TVSetSettingsFrom \/ TVSync \/ TVWitness
-           \/ TVOptimize \/ TVSetBasis \/ TVClearBasis \/ TVQueryBasis \/ TVCopy \/ TVDestroy \/ TVScalerBare \/ TVBinv \/ TVBinvQ \/ TVCCall \/ TVWitnessQ \/ TVOptimizeQ \/ TVBasisFile \/ TVStateFile \/ TVFileRoundTrip \/ TVDualFile
+           \/ TVOptimize \/ TVSetBasis \/ TVClearBasis \/ TVQueryBasis \/ TVCopy \/ TVDestroy \/ TVScalerBare \/ TVBinv \/ TVBinvQ \/ TVCCall \/ TVReadFile \/ TVReadBasisFuzz \/ TVWitnessQ \/ TVOptimizeQ \/ TVBasisFile \/ TVStateFile \/ TVFileRoundTrip \/ TVDualFile
 Spec == Init /\ [][Next]_vars
 
 \* acceptance: one state per consumed line plus the initial state
